@@ -63,6 +63,12 @@ CLAIMS = {
          "label fields and clear on mismatch; clear_if_invalid dominates the counting recursion in every sat_count_edge; "
          "gc_count is bumped by gc and reorder. The count itself and the big-natural arithmetic are value-level and not decided.",
          "MIR path enumeration (must-analysis) + dominance", "3.5, 4 C12"),
+ "C07": ("E-LOCK + E-FREELIST + E-CACHE.dm (+E-LIN/E-WRAP on the parallel code): lock-order acyclicity over all lock classes, "
+         "minimal memory orderings of the rc / lock protocols, rc re-read under the level lock, Send/Sync bounds of every unsafe "
+         "impl, move-only hand-over of thread-local free lists, non-blocking cache on the operation path and locked cache during "
+         "gc, MT wrappers reach the same algorithm instances. These are necessary conditions (no deadlock by lock order, the "
+         "stated happens-before edges exist); equivalence to a sequential execution over schedules is NOT decided.",
+         "lock-order graph + atomic-ordering table + MIR dataflow rules", "3.6, 4 C07"),
  "C08": ("E-UNITS.pre + E-UNITS + E-LIN on oxidd-reorder: level_swap's stale-number discipline (compare stored numbers with "
          "_pre parameters only, create/relabel nodes with the stale number of their level), no var/level mix-ups, no owned edge "
          "dropped by the compiler. Does not decide that functions are preserved.",
